@@ -276,8 +276,16 @@ def _i2(prog, res):
           pad = st
       if isinstance(st, ast.BinOp) and isinstance(st.op, ast.Div):
         num = st
-    if clip is None or pad is None or num is None:
-      raise _Unrecognised('clip / front pad / division not found')
+    if num is None:
+      raise _Unrecognised('(inputs - keypoints) / lengths not found')
+    if clip is None:
+      probs.append('interpolation weights are not clipped to [0, 1]: outputs '
+                   'extrapolate beyond the end keypoints and leave '
+                   '[output_min, output_max]')
+    if pad is None:
+      probs.append('no leading weight 1.0 for the first output')
+    if clip is None or pad is None:
+      return probs
     lohi = [const_value(a) for a in clip.args[1:3]] or [
         const_value(kwargs(clip).get('clip_value_min')),
         const_value(kwargs(clip).get('clip_value_max'))]
